@@ -845,6 +845,13 @@ class ClientSession:
 
                         try:
                             redirect_origin = parsed_redirect_url.origin()
+                            # What the next hop is going to do with the URL:
+                            # a target that cannot be requested (port out of
+                            # range, ":" in the login, text that cannot go on
+                            # the wire) is refused here as what it is.
+                            _ = parsed_redirect_url.port
+                            strip_auth_from_url(parsed_redirect_url)
+                            parsed_redirect_url.raw_path_qs.encode("utf-8")
                         except ValueError as origin_val_err:
                             if req._body is not None:
                                 await req._body.close()
